@@ -79,7 +79,9 @@ func (hh *heads) Replace(ctx context.Context, old cid.Cid, new cid.Cid, height u
 // @todo Document Heads.List function
 func (hh *heads) List(ctx context.Context) ([]cid.Cid, uint64, error) {
 	iter, err := hh.store.Iterator(ctx, corekv.IterOptions{
-		Prefix: hh.namespace.Bytes(),
+		// The trailing separator keeps out the heads of namespaces that merely start with
+		// the same characters, e.g. those of field 10 when listing the heads of field 1.
+		Prefix: append(hh.namespace.Bytes(), '/'),
 	})
 	if err != nil {
 		return nil, 0, err
